@@ -6,4 +6,4 @@ Require Import ExtrOcamlBasic ExtrOcamlString.
 Extraction Language OCaml.
 Extraction "../ocaml/c09/model.ml" encode_request serialize_request parse_frame frame_says
   oversize batch_counts_match set_stream decompress
-  batch_body_len uniform_batch_outcome body_too_long.
+  batch_body_len uniform_batch_outcome size_outcome body_too_long compress_append make_frame.
